@@ -639,7 +639,7 @@ func run(c *hx.Ctx) error {
 	if p := os.Getenv("VERIF_C29_EXPLAIN"); p != "" { // development aid: one Go-quoted document per line
 		return explainFile(p)
 	}
-	res.Rule = "cases for the real code (run inside cmd/scriggo's tag-guarded test): (1) generated Markdown documents of 1-4 blocks from the construct list of the property (inline links and images with bare / angle / empty destinations, titles in the three quote forms, reference definitions and uses, code spans, fenced and indented code, HTML blocks, raw-text elements, comments, inline HTML, lists, block quotes, headings, escaped brackets and parentheses, nested brackets) through linkDestinationReplacer.replace with base https://example.com/base, dir docs; (2) random sources with random replacement lists (valid, overlapping, out of range) through applyReplacements; (3) a backslash / U+00A0 dictionary, its pairs and random bytes through markdownURLEscape and markdownUnescape; (4) generated lines x positions through parseDestination, parseTitle, findLabelEnd; (5) the fence family: documents around one fenced code block - opening fence {backtick, tilde} x length 3..6 x indentation 0..4 x info string {none, word, with backticks, with tildes, link syntax}; block lines that are links, definitions, text or look like fences (same / other character, shorter / equal / longer run, indented 0..4 or by a tab, followed by nothing, blanks or text); closing fence equal / longer / indented / fence-like / missing; followed by links, definitions, autolinks; alone, after a paragraph or a block of (1), in a block quote (also left early), in a list item (continuation indented or not); LF or CRLF - and the matrix of single lines indentation x character x run 0..7 x trailing text through isFenceStart, isIndentedCode and, after the opening fences {backtick, tilde} x {1, 3, 4, 5, 6} (quick: three of the ten per line, rotating), isFenceClose; (6) for the finding classes' precision self-test, per class 250 documents for which the class predicts a wrong rewriting, from per-class generators (classgens.go), partly inside a document of (1); a case is non-trivial when it has a link construct / a replacement / a backslash or C2 byte; distinct by (op, input)"
+	res.Rule = "cases for the real code (run inside cmd/scriggo's tag-guarded test): (1) generated Markdown documents of 1-4 blocks from the construct list of the property (inline links and images with bare / angle / empty destinations, titles in the three quote forms, reference definitions and uses, code spans, fenced and indented code, HTML blocks, raw-text elements, comments, inline HTML, lists, block quotes, headings, escaped brackets and parentheses, nested brackets) through linkDestinationReplacer.replace with base https://example.com/base, dir docs; (2) random sources with random replacement lists (valid, overlapping, out of range) through applyReplacements; (3) a backslash / U+00A0 dictionary, its pairs and random bytes through markdownURLEscape and markdownUnescape; (4) generated lines x positions through parseDestination, parseTitle, findLabelEnd; (5) the fence family: documents around one fenced code block - opening fence {backtick, tilde} x length 3..6 x indentation 0..4 x info string {none, word, with backticks, with tildes, link syntax}; block lines that are links, definitions, text or look like fences (same / other character, shorter / equal / longer run, indented 0..4 or by a tab, followed by nothing, blanks or text); closing fence equal / longer / indented / fence-like / missing; followed by links, definitions, autolinks; alone, after a paragraph or a block of (1), in a block quote (also left early), in a list item (continuation indented or not); LF or CRLF - and the matrix of single lines indentation x character x run 0..7 x trailing text through isFenceStart, isIndentedCode and, after the opening fences {backtick, tilde} x {1, 3, 4, 5, 6} (quick: three of the ten per line, rotating), isFenceClose; (6) the literal-context family: lines of 2-5 pieces - code spans of backtick-run length 1..3 whose content starts with / contains / ends with backslashes, a backslash before each ASCII punctuation byte, backslash-backtick, link syntax, a backtick run of another length; raw HTML tags and attribute values, comments, processing instructions, CDATA, raw text elements and autolinks with backslashes; links whose text, angle or bare destination or title holds backslashes, escaped brackets, code spans; bare backslashes and brackets - mixed with plain links, with a definition or link line before and a link, definition or another such line after; each as a document through the oracle, and one line each (after a leading word) through the model of scanInlineLinks (every real replacement is a span of the model, every span of the model that is a plain relative path is a real replacement); (7) for the finding classes' precision self-test, per class 250 documents for which the class predicts a wrong rewriting, from per-class generators (classgens.go), partly inside a document of (1); a case is non-trivial when it has a link construct / a replacement / a backslash or C2 byte; distinct by (op, input)"
 
 	var cases []tcase
 	var keys []string
@@ -779,7 +779,32 @@ func run(c *hx.Ctx) error {
 	for _, fc := range fcs {
 		add(fc.tcase(), fc.key())
 	}
-	res.Histogram["cases-fence-documents"] = len(docs) - mainDocs
+	fenceDocsEnd := len(docs)
+	// (7) the literal-context family (literal.go): backslashes inside code spans, raw HTML,
+	// comments, autolinks, titles, destinations and link text, next to links; as documents for the
+	// oracle and, one line each, for the model of scanInlineLinks. A stream of its own again.
+	lr := proto.NewRand(c.Seed ^ 0xC29B5C0D)
+	nLiteralDocs := c.N(2500, 50000)
+	for i := 0; i < nLiteralDocs; i++ {
+		d := genLiteralDoc(lr)
+		if seenFenceDoc[d] {
+			continue
+		}
+		seenFenceDoc[d] = true
+		docs = append(docs, d)
+		docK = append(docK, len(cases))
+		add(tcase{Op: "replace", Src: hexs(d), Base: baseURL, Dir: dirName}, "replace "+d)
+	}
+	var probes []string
+	inlineBase := len(cases)
+	for i, n := 0, c.N(3000, 60000); i < n; i++ {
+		l := inlineProbeLine(lr)
+		probes = append(probes, l)
+		add(tcase{Op: "replace", Src: hexs(l), Base: baseURL, Dir: dirName}, "inline "+l)
+	}
+	res.Histogram["cases-literal-documents"] = len(docs) - fenceDocsEnd
+	res.Histogram["cases-inline-model-lines"] = len(probes)
+	res.Histogram["cases-fence-documents"] = fenceDocsEnd - mainDocs
 	res.Histogram["cases-fence-lines"] = len(fcs)
 	res.Histogram["cases-replace-documents"] = len(docs)
 	res.Histogram["cases-applyReplacements"] = len(applies)
@@ -891,10 +916,13 @@ func run(c *hx.Ctx) error {
 	for i, fc := range fcs {
 		lines[fenceBase+i] = fc.modelLine()
 	}
+	for i, l := range probes {
+		lines[inlineBase+i] = "C29 inline " + proto.Hex([]byte(l))
+	}
 	// the model's fenceScan on the fence documents that cannot put the scanner into HTML state
 	var scanDocs []int
 	var scanLines []string
-	for i := mainDocs; i < len(docs); i++ {
+	for i := mainDocs; i < fenceDocsEnd; i++ {
 		if !strings.Contains(docs[i], "<") {
 			scanDocs = append(scanDocs, i)
 			scanLines = append(scanLines, "C29 fencescan "+proto.Hex([]byte(docs[i])))
@@ -959,7 +987,9 @@ func run(c *hx.Ctx) error {
 	for i, d := range docs {
 		r := results[docK[i]]
 		k := docK[i]
-		if i >= mainDocs {
+		if i >= fenceDocsEnd {
+			res.Hist("literal-documents/replacements-" + strconv.Itoa(min(len(r.Repls), 3)))
+		} else if i >= mainDocs {
 			res.Hist("fence-documents/replacements-" + strconv.Itoa(min(len(r.Repls), 3)))
 		}
 		nontrivial := strings.Contains(d, "](") || strings.Contains(d, "]:")
@@ -1151,6 +1181,26 @@ func run(c *hx.Ctx) error {
 		}
 	}
 	phase("fence lines")
+	// scanInlineLinks: model (tests in the regenerated order) = code, on one-line sources
+	for i, l := range probes {
+		k := inlineBase + i
+		r := results[k]
+		res.Count(keys[k], strings.Contains(l, "\\") || strings.Contains(l, "`"))
+		if model == nil {
+			continue
+		}
+		if model[k] == "ok unsupported" {
+			res.Hist("inline-model/unsupported (HTML state)")
+			continue
+		}
+		res.Hist("inline-model/spans-" + strconv.Itoa(min((len(strings.Fields(model[k]))-1)/2, 4)))
+		if r.Panic != "" || r.Err != "" {
+			report("correspondence", "scanInlineLinks", lines[k], keys[k], "panic/error: "+r.Panic+r.Err, model[k], "")
+		} else if p := inlineCheck(l, r, model[k]); p != "" {
+			report("correspondence", "scanInlineLinks(tests in source order, empty HTML state)", lines[k], fmt.Sprintf("line %q", l), p, model[k], "")
+		}
+	}
+	phase("inline model lines")
 	return nil
 }
 
